@@ -195,7 +195,7 @@ class FuncRef:
 
 
 class RePattern:
-    _model = ('match', 'fullmatch', 'search', 'pattern', 'sub', 'findall', 'split')
+    _model = ('match', 'fullmatch', 'search', 'pattern', 'sub', 'findall', 'split', 'finditer', 'flags')
 
     def __init__(self, pattern, flags=0):
         self.pattern, self.flags = pattern, flags
@@ -209,17 +209,20 @@ class RePattern:
     def split(self, string, maxsplit=0):
         return self._c().split(string, maxsplit)
 
+    def finditer(self, string, *pos):
+        return list(self._c().finditer(string, *pos))
+
     def _c(self):
         return _re.compile(self.pattern, self.flags)
 
-    def match(self, s):
-        return self._c().match(s)
+    def match(self, s, *pos):
+        return self._c().match(s, *pos)
 
-    def fullmatch(self, s):
-        return self._c().fullmatch(s)
+    def fullmatch(self, s, *pos):
+        return self._c().fullmatch(s, *pos)
 
-    def search(self, s):
-        return self._c().search(s)
+    def search(self, s, *pos):
+        return self._c().search(s, *pos)
 
     def __repr__(self):
         return f'RePattern({self.pattern!r}, {self.flags})'
